@@ -15,7 +15,13 @@ Two halves live in this file:
                              cfg.set(k.lower(), v), which is how frameworks hand their defaults to gunicorn
 
   constructs `LabApp` (BaseApplication.__init__ -> do_load_config -> load_default_config + load_config) and
-  reports `cfg.settings[name].get()` of EVERY setting in a stable serialisation, or the failure.
+  reports `cfg.settings[name].get()` of EVERY setting in a stable serialisation, or the failure; next to that
+  (`effective`) the DERIVED `Config` properties the server really acts on where evaluating them is a pure read:
+  cfg.sendfile (consults the SENDFILE environment variable at access time), cfg.address, cfg.uid, cfg.gid,
+  cfg.proc_name, cfg.worker_class_str, cfg.env, cfg.is_ssl (truth value), cfg.ssl_options, cfg.reuse_port,
+  cfg.paste_global_conf.  A recipe may carry `environ` ({variable: value | None}): further variables of the
+  server's environment, set (None: removed) before the application object is made; such a cell is then loaded a
+  second time with those variables absent and the observation carries that load as `control`.
   `Application.run()` is never called: nothing is daemonised, bound, forked or logged; loading only stores values,
   with one exception that the harness accounts for: `Application.chdir()` does os.chdir(cfg.chdir).
 
@@ -200,7 +206,27 @@ def _describe():
             arity = v.__closure__[0].cell_contents
         out.append({"name": name, "cli": list(s.cli) if s.cli else [], "action": s.action or "store",
                     "const": s.const, "validator": vname, "arity": arity,
-                    "cli_type": getattr(s.type, "__name__", None) if s.type else None})
+                    "cli_type": getattr(s.type, "__name__", None) if s.type else None,
+                    "section": getattr(s, "section", None)})
+    return out
+
+
+# Derived `Config` properties - what the server USES for a setting (or a group of settings) instead of the stored
+# value.  Only those whose evaluation is a pure read: `worker_class` / `logger_class` import modules and call
+# setup() / install(), they stay out (and are neutralised below anyway).
+EFFECTIVE = ("sendfile", "address", "uid", "gid", "proc_name", "worker_class_str", "env", "is_ssl", "ssl_options",
+             "reuse_port", "paste_global_conf")
+
+
+def _effective(cfg):
+    """ser() of every derived property (`is_ssl`: its truth value); an exception is reported as '!<type>'."""
+    out = {}
+    for n in EFFECTIVE:
+        try:
+            v = getattr(cfg, n)
+            out[n] = ser(bool(v)) if n == "is_ssl" else ser(v)
+        except Exception as e:                  # noqa: BLE001 - reported, judged by the check
+            out[n] = "!" + type(e).__name__
     return out
 
 
@@ -287,6 +313,11 @@ def _load_one(home, base_path, base_modules, recipe, LabApp, Arbiter):
     os.environ.pop("GUNICORN_CMD_ARGS", None)
     if recipe.get("env") is not None:
         os.environ["GUNICORN_CMD_ARGS"] = recipe["env"]
+    for k, v in (recipe.get("environ") or {}).items():      # further variables of the server's environment
+        if v is None:
+            os.environ.pop(k, None)
+        else:
+            os.environ[k] = v
     written = []
 
     def put(files):
@@ -329,6 +360,7 @@ def _load_one(home, base_path, base_modules, recipe, LabApp, Arbiter):
                         harness = "no Arbiter for a loaded application: %s: %s" % (type(e).__name__, str(e)[:200])
                 obs = {"ok": True,
                        "values": {k: ser(s.get()) for k, s in cfg.settings.items()},
+                       "effective": _effective(cfg),
                        "loaded": list(getattr(sys, MARK, [])), "cwd": os.getcwd(),
                        "rejected": [list(x) for x in REJECTED]}
                 if arb is not None:
@@ -348,6 +380,7 @@ def _load_one(home, base_path, base_modules, recipe, LabApp, Arbiter):
                         arb.reload()
                         so = {"returned": True,
                               "values": {k: ser(s.get()) for k, s in arb.cfg.settings.items()},
+                              "effective": _effective(arb.cfg),
                               "reexec_env": _own_variables(arb.cfg.env_orig)}
                     except SystemExit as e:
                         so = {"returned": False, "exc": "SystemExit",
@@ -426,7 +459,15 @@ def _helper_main(mode, home):
 
         base_path = list(sys.path)
         base_modules = set(sys.modules)
-        res = [_load_one(home, base_path, base_modules, r, LabApp, Arbiter) for r in payload["recipes"]]
+        res = []
+        for r in payload["recipes"]:
+            o = _load_one(home, base_path, base_modules, r, LabApp, Arbiter)
+            if [1 for v in (r.get("environ") or {}).values() if v is not None]:
+                # the control: the same sources loaded once more, in an environment WITHOUT those variables
+                c = _load_one(home, base_path, base_modules, dict(r, environ={k: None for k in r["environ"]}),
+                              LabApp, Arbiter)
+                o["control"] = {k: c.get(k) for k in ("ok", "values", "effective", "loaded", "exc", "code")}
+            res.append(o)
     sys.stdout.write("\n" + json.dumps(res) + "\n")
     sys.stdout.flush()
     return 0
